@@ -159,6 +159,11 @@ KvSet(kvs)   == {<<kvs[i].key, kvs[i].val>> : i \in 1..Len(kvs)}
 KvKeys(kvs)  == {kvs[i].key : i \in 1..Len(kvs)}
 KvGet(kvs, key) == kvs[CHOOSE i \in 1..Len(kvs) : kvs[i].key = key].val
 
+\* instructions may have been moved inside their block: the layout gives, for the current
+\* offset of an instruction, the offset it was lifted at (orig)
+OrigOff(st, off) == LET ds == {i \in 1..Len(st.layout) : st.layout[i].addr = off} IN
+                    IF ds = {} THEN off ELSE st.layout[CHOOSE i \in ds : TRUE].orig
+
 JudgeStepRv(ev, st) ==
     Let1(AddrOff(st, RGet(st.regs, IPKey)), LAMBDA off :
     IF off \notin StartsOf(st.image)
@@ -167,10 +172,13 @@ JudgeStepRv(ev, st) ==
     ELSE IF ev.err THEN Fail("steperror", "step succeeds at a decoded instruction", "error", st)
     ELSE Let1(AskProblem(ev, st), LAMBDA ap :
       Let1(WithAnswers(ev, st), LAMBDA s1 :
-      Let1(WBits(WordAt(st.image, off)), LAMBDA wb :
+      Let1(WBits(WordAt(st.image, OrigOff(st, off))), LAMBDA wb :
       Let1(Decode(st.variant, HasM(st), HasA(st), wb), LAMBDA name :
       Let1(MachineOf(ev, s1), LAMBDA m :
-      Let1(Exec(st.variant, Adapt(RGet(st.regs, IPKey), W(st)), wb, name, m), LAMBDA r :
+      \* the instruction means what it meant at its original address; falling through its original
+      \* end means continuing behind its current position
+      Let1(Exec(st.variant, Adapt(OffAddr(st, OrigOff(st, off)), W(st)), wb, name, m), LAMBDA r0 :
+      Let1(IF Adapt(r0.ip, 8) = OffAddr(st, OrigOff(st, off) + 4) THEN [r0 EXCEPT !.ip = Adapt(OffAddr(st, off + 4), W(st))] ELSE r0, LAMBDA r :
       IF \E i \in 1..Len(r.mw) : Len(Strip(Add(r.mw[i].a, FromNat(Len(r.mw[i].b), 1), 9))) > 8
          \/ \E q \in 1..Len(MemReadOf(name, wb, m, W(st))) :
                Len(Strip(Add(MemReadOf(name, wb, m, W(st))[q].a, FromNat(MemReadOf(name, wb, m, W(st))[q].n, 1), 9))) > 8
@@ -210,7 +218,7 @@ JudgeStepRv(ev, st) ==
         \* the state after the step
         ELSE IF KvSet(ev.regsa) # RAsSet(s2.regs)
           THEN Fail("regs", RAsSet(s2.regs) \ KvSet(ev.regsa), KvSet(ev.regsa) \ RAsSet(s2.regs), s2)
-        ELSE Pass(s2)))))))))))
+        ELSE Pass(s2))))))))))))
 
 \* ---- mode abs: the meaning of the effects -----------------------------------
 \* Effects are lifted at the original address of an instruction.  Writing the
@@ -256,9 +264,9 @@ JudgeFinal(ev, st) ==
     ELSE IF ~(SpecBytes(st) \subseteq DumpBytes(ev.mema)) \/
             \E t \in DumpBytes(ev.mema) : ~MKnown(st.mem, t[1], t[2]) \/ MGet(st.mem, t[1], t[2]) # t[3]
       THEN Fail("finalmem", SpecBytes(st) \ DumpBytes(ev.mema), DumpBytes(ev.mema) \ SpecBytes(st), st)
-    ELSE IF st.mode = "abs" /\ ev.run = 1
+    ELSE IF ev.run = 1
       THEN Pass([st EXCEPT !.run1 = [regs |-> KvSet(ev.regsa), mem |-> DumpBytes(ev.mema)]])
-    ELSE IF st.mode = "abs" /\ ev.run = 2 /\ st.run1 # <<>> /\
+    ELSE IF ev.run = 2 /\ st.run1 # <<>> /\
             (st.run1.regs # KvSet(ev.regsa) \/ st.run1.mem # DumpBytes(ev.mema))
       THEN Fail("behaviour", [regs |-> st.run1.regs \ KvSet(ev.regsa), mem |-> st.run1.mem \ DumpBytes(ev.mema)],
                 [regs |-> KvSet(ev.regsa) \ st.run1.regs, mem |-> DumpBytes(ev.mema) \ st.run1.mem], st)
